@@ -95,6 +95,14 @@ CORPUS = [
                                                             'y': {'dependencies': '^^a'}}},
                  'l': {'type': 'list', 'schema': {'type': 'dict', 'schema': {'^a': {}, 'z': {'dependencies': '^^a'}}}}},
          doc={'^a': 1, 'sub': {'x': 1, 'y': 2}, 'l': [{'z': 1}, {'z': 1, '^a': 0}]}, norm=False),
+    # an *of rule inside a definition of another *of rule, with bulk rules (schema / items) in its own definitions
+    dict(schema={'a': {'anyof': [{'type': 'dict', 'schema': {'b': {'anyof': [{'type': 'dict', 'schema': {'c': {'type': 'integer'}}},
+                                                                             {'type': 'list', 'items': [{'type': 'string'}, {'min': 3}]}]}}},
+                                 {'type': 'string'}]}},
+         doc={'a': {'b': {'c': 'x'}}}, norm=False),
+    dict(schema={'a': {'type': 'list', 'schema': {'oneof': [{'type': 'dict', 'schema': {'b': {'noneof': [{'type': 'list', 'items': [{'type': 'integer'}, {'type': 'integer'}]}]}}},
+                                                            {'type': 'integer'}]}}},
+         doc={'a': [{'b': [1, 2]}, {'b': ['x', 2]}, 'y']}, norm=False),
     # keysrules (validating only) beside normalizing valuesrules
     dict(schema={'m': {'type': 'dict', 'keysrules': {'type': 'string', 'regex': '[a-z]+'},
                        'valuesrules': {'type': 'integer', 'coerce': F.c_int, 'nullable': False, 'default': 0}}},
